@@ -280,3 +280,55 @@ func VH_C18_long() {
 		vC18RunN(vC18ModifyForms, 3, vParam("maxEdits", 4), true)
 	}
 }
+
+// values in parentheses that use operators the st value rule switches off
+// outside parentheses (the parser saves and restores its flags around them)
+var vC18ParenValues = []struct {
+	src string
+	val int64
+}{{"(4|1)", 5}, {"(6&3)", 2}, {"(1+2)", 3}, {"((8|1)&12)", 8}, {"(2d1)", 2}}
+
+var vC18ParenFirst = []struct {
+	src, typ, name string
+}{{"力量60", "set", "力量"}, {"&手枪=1d1", "set", "手枪"}, {"属性*2:5", "set.x1", "属性"}, {"体质(3&1)", "set", "体质"}}
+
+func init() {
+	vHarnesses["VH_C18_paren"] = VH_C18_paren
+}
+
+//vh:prop=C18 tiers=quick,thorough sigkeys=first,sep,value,third overrides=formatFriendlyError budget_s=600 bounds="lists of two or three edits: one of 4 first assignments (plain, computed, multiplier, parenthesised bitwise), one of 4 separators, then an assignment whose value is one of 5 parenthesised expressions with bitwise operators / dice, optionally a third plain edit: one callback per edit in order, the parenthesised value evaluated as written, the list consumed entirely"
+func VH_C18_paren() {
+	f := vC18ParenFirst[vChoice("first", len(vC18ParenFirst))]
+	sep := vC18Seps[vChoice("sep", len(vC18Seps))]
+	pv := vC18ParenValues[vChoice("value", len(vC18ParenValues))]
+	third := vChoice("third", 2) == 1
+	src := "^st" + f.src + sep + "智力" + pv.src
+	n := 2
+	if third {
+		src += " 意志70"
+		n = 3
+	}
+	vm := vNewVM()
+	var calls []vStCall
+	vm.Config.CallbackSt = func(typ string, name string, val *VMValue, extra *VMValue, op string, detail string) {
+		calls = append(calls, vStCall{typ, name, op, detail, val, extra})
+	}
+	err := vm.Run(src)
+	vReach("ran")
+	vAssert(err == nil, "list-is-accepted")
+	if err != nil {
+		return
+	}
+	vAssert(vm.RestInput == "", "list-consumed-entirely")
+	vAssert(len(calls) == n, "one-callback-per-edit")
+	if len(calls) != n {
+		return
+	}
+	vAssert(calls[0].typ == f.typ && calls[0].name == f.name, "first-edit-verbatim")
+	vAssert(calls[1].typ == "set" && calls[1].name == "智力", "second-edit-verbatim")
+	iv, ok := calls[1].val.ReadInt()
+	vAssert(ok && int64(iv) == pv.val, "parenthesised-value-evaluated-as-written")
+	if third {
+		vAssert(calls[2].typ == "set" && calls[2].name == "意志", "third-edit-verbatim")
+	}
+}
